@@ -4,7 +4,7 @@ import json, random
 from ..common import Result, Violation, run_driver, canon_hash
 from ..langgen import LangGen, lang_payload, jtxt
 from ..mhist import Impl, Gen, canon_obs
-from .. import aghist
+from .. import aghist, genexec
 
 ASSUMPTIONS = [
     'the database driver is replaced by a recording stand-in: it records the py2neo Subgraph handed to tx.create and answers the two fixed Cypher queries of get_model from the recorded data (all nodes with a type; all (a, r1, r2, b) with r1: a->b, r2: b->a, r1 != r2); real py2neo Node / Relationship / Subgraph objects are used',
@@ -59,7 +59,96 @@ def links_view(m):
             for y in getattr(a, rf): out.add((type(a).__name__, str(lf), int(x.id), str(rf), int(y.id)))
     return sorted(out)
 
-def check_model(spec, ops, mo):
+# --------------------------------------------------------------------------------------------------------------------
+# the third column (notes/NOTES_genexec2_legneo.md): the GENERATED ingestor (`Py/GenNeo4j`, driver ops `gen_neo4j_model` /
+# `gen_neo4j_graph`) on the recording database of the prelude, against what the real ingestor hands to the recording stand-in
+import re
+def full_sub(sg):
+    """the recorded Subgraph in the form of `GenXNeo.dbToJson`: every node (in creation order) with ALL labels and ALL
+    properties (in the order py2neo keeps them), every relationship as [position of start, type name, position of end]"""
+    nodes = sorted(sg.nodes, key=lambda n: StubGraph.order[id(n)])
+    idx = {id(n): i for i, n in enumerate(nodes)}
+    return {'nodes': [{'labels': [str(l) for l in n.labels], 'props': [[k, v] for k, v in dict(n).items()]} for n in nodes],
+            'rels': [[idx[id(r.start_node)], type(r).__name__, idx[id(r.end_node)]] for r in sg.relationships]}
+
+_opaque = lambda t: re.sub(r"""['" ]""", '', t).replace('null', 'None').replace('true', 'True').replace('false', 'False')
+def _same_text(k, x, y):
+    """`str(container)`: the prelude stores a FIXED rendering (`pyStrAtom`: strings between single quotes without escapes, a
+    `ttc` dictionary with its values as JSON text) - the implementation's text must denote the same value"""
+    import ast
+    if k == 'compromised_by':
+        try: l = ast.literal_eval(x)
+        except Exception: return False
+        return isinstance(l, list) and all(isinstance(t, str) for t in l) and '[' + ', '.join("'" + t + "'" for t in l) + ']' == y
+    return _opaque(x) == _opaque(y)
+
+def sub_diff(impl, gen, res, opaque=()):
+    """recorded subgraph of the implementation against the database the generated code stored.  Nodes: the list must be equal
+    (order = creation order) with labels as sets and properties as dictionaries - the properties named in `opaque` up to
+    quoting / blanks (`str(dict)`: the prelude renders it as an opaque text, convention 6 of NOTES_neo4j); the ORDER of the
+    properties is counted as drift.  Relationships: a py2neo Subgraph holds a frozenset, the implementation has no order to
+    compare: equal as sorted lists (= as sets; a relationship stored twice by the generated code would show)."""
+    a, b = impl['nodes'], gen['nodes']
+    if len(a) != len(b): return f'number of nodes: implementation {len(a)}, generated {len(b)}'
+    for i, (x, y) in enumerate(zip(a, b)):
+        if sorted(x['labels']) != sorted(y['labels']): return f'labels of node {i}'
+        dx, dy = dict(map(tuple, x['props'])), dict(map(tuple, y['props']))
+        if len(dx) != len(x['props']) or len(dy) != len(y['props']) or set(dx) != set(dy): return f'property names of node {i}'
+        for k in dx:
+            if dx[k] != dy[k] and not (k in opaque and isinstance(dx[k], str) and _same_text(k, dx[k], dy[k])): return f'property {k} of node {i}'
+        if [p[0] for p in x['props']] != [p[0] for p in y['props']] and res: res.bump('generated_code_order_drift:properties')
+    if sorted(map(tuple, impl['rels'])) != sorted(map(tuple, gen['rels'])): return 'relationships'
+    return None
+
+def back_result(back):
+    if back is None: return {'none': True}
+    im2 = Impl.__new__(Impl); im2.m = back
+    return {'loaded': Impl.obs(im2), 'name': back.name}
+
+def back_diff(ir, g, res):
+    """what the real `get_model` returned against the generated one: outcome, model name, the whole canonical state; the order
+    of the association list (it follows the order of the rows the database answers with) is drift"""
+    kind = lambda r: 'loaded' if 'loaded' in r else 'none' if 'none' in r else 'error'
+    if kind(ir) != kind(g): return f'outcome of get_model: implementation {kind(ir)} {ir.get("error", "")}, generated {kind(g)} {g.get("error", "")}'
+    if 'error' in ir: return None if ir['error'] == g['error'] else f'exception class of get_model: {ir["error"]} / {g["error"]}'
+    if 'none' in ir: return None
+    if ir['name'] != g['name']: return 'name of the imported model'
+    x, y = canon_obs(ir['loaded']), canon_obs(g['loaded'])
+    diff = [k for k in x if x[k] != y[k]]
+    if diff: return 'imported model: ' + ','.join(diff)
+    if res and [a[:5] for a in ir['loaded']['associations']] != [a[:5] for a in g['loaded']['associations']]: res.bump('generated_code_order_drift:imported_associations')
+    if res and [a[:3] for a in ir['loaded']['assets']] != [a[:3] for a in g['loaded']['assets']]: res.bump('generated_code_order_drift:imported_assets')
+    return None
+
+def gen_model_check(rec, go, res, replay):
+    """third column of a model case; `rec` = what `check_model` recorded of the implementation"""
+    if 'error' in go: return genexec.driver_error('C19', go['error'], replay)
+    g = go['model']
+    if 'skip' in g:
+        if res: res.bump('generated_code_not_comparable:' + g['skip'])
+        return None
+    if res: res.bump('generated_code_subgraphs_compared')
+    d = 'ingest_model raises ' + g['error'] if 'error' in g else sub_diff(rec['full'], g['sub'], res)
+    if d is not None:
+        return genexec.divergence('C19', 'ingest_model', f'on the recorded subgraph ({d})', {**replay, 'impl': rec['full'], 'generated': g.get('sub', g)})
+    if 'skip' in g['back']: return None
+    if res: res.bump('generated_code_imports_compared')
+    d = back_diff(rec['back'], g['back'], res)
+    if d is not None:
+        return genexec.divergence('C19', 'get_model', f'on the model read back ({d})', {**replay, 'impl': rec['back'], 'generated': g['back']})
+    return None
+
+def gen_graph_check(rec, go, res, replay):
+    if 'error' in go: return genexec.driver_error('C19', go['error'], replay)
+    g = go['model']
+    if res: res.bump('generated_code_graphs_compared')
+    d = 'ingest_attack_graph raises ' + g['error'] if 'error' in g else sub_diff(rec['full'], g['sub'], res, opaque=('ttc', 'compromised_by'))
+    if d is not None:
+        return genexec.divergence('C19', 'ingest_attack_graph', f'on the recorded subgraph ({d})', {**replay, 'impl': rec['full'], 'generated': g.get('sub', g)})
+    return None
+
+def check_model(spec, ops, mo, gen=None, res=None, rec=None):
+    rec = {} if rec is None else rec
     im = Impl(spec)
     for op in ops: im.step(op)
     m = im.m
@@ -70,11 +159,14 @@ def check_model(spec, ops, mo):
         idx = {id(n): i for i, n in enumerate(nodes)}
         sub = {'nodes': [[list(n.labels)[0], n['name'], n['asset_id'], n['type']] for n in nodes],
                'rels': sorted([idx[id(r.start_node)], type(r).__name__, idx[id(r.end_node)]] for r in sg.relationships)}
+        rec['full'] = full_sub(sg)
         back = nj.get_model('uri', 'u', 'p', 'db', im.lg, im.fac)
+        rec['back'] = back_result(back)
         return sub, back
     try:
         sub, back = with_stub(go)
     except Exception as e:
+        rec['raised'] = type(e).__name__
         return Violation(what=f'ingest / import raises {type(e).__name__}: {str(e)[:100]}', fingerprint='C19:raises:' + type(e).__name__, replay={'spec': spec, 'ops': ops})
     # isomorphism of the export
     want_nodes = [[str(a.type), str(a.name), str(int(a.id)), str(a.type)] for a in m.assets]
@@ -105,9 +197,11 @@ def check_model(spec, ops, mo):
         if [a[:3] for a in x['assets']] != [a[:3] for a in y['assets']] or pw(x) != pw(y):
             return Violation(what='implementation and Lean model disagree on the imported model', fingerprint='C19:model-divergence',
                              replay={'spec': spec, 'ops': ops, 'impl': x['associations'], 'model': y['associations']}, no_failing_input=True)
+    if gen is not None: return gen_model_check(rec, gen, res, {'spec': spec, 'ops': ops})
     return None
 
-def check_graph(ops, mo):
+def check_graph(ops, mo, gen=None, res=None, rec=None):
+    rec = {} if rec is None else rec
     im = aghist.Impl()
     for op in ops: im.step(op)
     g = im.g
@@ -116,10 +210,12 @@ def check_graph(ops, mo):
         sg = StubGraph.store
         nodes = sorted(sg.nodes, key=lambda n: StubGraph.order[id(n)])
         idx = {id(n): i for i, n in enumerate(nodes)}
+        rec['full'] = full_sub(sg)
         return {'nodes': [[str(list(n.labels)[0]), n['name'], n['full_name'], n['type'], n['ttc'], n['is_necessary'], n['is_viable'], n['compromised_by'], n['defense_status']] for n in nodes],
                 'rels': sorted([idx[id(r.start_node)], idx[id(r.end_node)]] for r in sg.relationships)}
     try: sub = with_stub(go)
     except Exception as e:
+        rec['raised'] = type(e).__name__
         return Violation(what=f'ingest_attack_graph raises {type(e).__name__}: {str(e)[:100]}', fingerprint='C19:graph-raises', replay={'ops': ops})
     want = [[str(n.asset.name) if n.asset else str(n.id), n.name, n.full_name, n.type, str(n.ttc), str(n.is_necessary), str(n.is_viable),
              str([a.name for a in n.compromised_by]), 'N/A' if n.defense_status is None else str(n.defense_status)] for n in g.nodes]
@@ -134,6 +230,7 @@ def check_graph(ops, mo):
         if mn != sub['nodes'] or sorted(map(tuple, mo['rels'])) != sorted(map(tuple, sub['rels'])):
             return Violation(what='implementation and Lean model disagree on the exported attack graph', fingerprint='C19:model-divergence-graph',
                              replay={'ops': ops, 'impl': sub, 'model': {'nodes': mn, 'rels': mo['rels']}}, no_failing_input=True)
+    if gen is not None: return gen_graph_check(rec, gen, res, {'ops': ops})
     return None
 
 GW = {'add_node': 8, 'link': 12, 'add_attacker': 3, 'compromise': 4, 'set_labels': 2, 'remove_node': 1}
@@ -151,11 +248,16 @@ def run(seed, tier, lean) -> Result:
         spec = LangGen(r, knobs={'dup_assoc_names': 0.4, 'reuse_fields': 0.6}).gen()
         mcases.append((spec, Gen(r, spec, WEIGHTS, explicit_attacker_ids=False, extras=False).gen(r.randint(4, 30))[:-1]))
         gcases.append(aghist.Gen(r, GW, nmax=r.choice([4, 7]), rich=True).gen(r.randint(5, 25))[:-1])
-    mm = run_driver([{'op': 'neo4j_model', 'case': i, 'lang': lang_payload(s), 'ops': o} for i, (s, o) in enumerate(mcases)]) if lean['build_ok'] else None
-    gm = run_driver([{'op': 'neo4j_graph', 'case': i, 'ops': o} for i, o in enumerate(gcases)]) if lean['build_ok'] else None
+    mm = gm = gmm = ggm = None
+    if lean['build_ok']:
+        # ONE driver batch: the hand-written model and the generated code, models and attack graphs
+        mp = [{'op': 'neo4j_model', 'case': i, 'lang': lang_payload(s), 'ops': o} for i, (s, o) in enumerate(mcases)]
+        gp = [{'op': 'neo4j_graph', 'case': i, 'ops': o} for i, o in enumerate(gcases)]
+        out = run_driver(mp + gp + [dict(p, op='gen_neo4j_model') for p in mp] + [dict(p, op='gen_neo4j_graph') for p in gp])
+        mm, gm, gmm, ggm = out[:n], out[n:2 * n], out[2 * n:3 * n], out[3 * n:]
     for i, (spec, ops) in enumerate(mcases):
         res.evaluations += 1
-        v = check_model(spec, ops, mm[i].get('model') if mm else None)
+        v = check_model(spec, ops, mm[i].get('model') if mm else None, gmm[i] if gmm else None, res)
         pairs = {}
         for o in ops:
             if o['k'] == 'add_association':
@@ -165,11 +267,55 @@ def run(seed, tier, lean) -> Result:
         if v: res.violations.append(v)
     for i, ops in enumerate(gcases):
         res.evaluations += 1
-        v = check_graph(ops, gm[i].get('model') if gm else None)
+        v = check_graph(ops, gm[i].get('model') if gm else None, ggm[i] if ggm else None, res)
         if v: res.violations.append(v)
     if mm: res.samples.append({'exported': mm[0].get('model', {}).get('sub')})
     else: res.samples.append({'ops': mcases[0][1][:5]})
     return res
+
+def genexec_measure(seed: int, n: int) -> dict:
+    """tools/genexec_seeded.py: n model cases and n attack-graph cases of the quick check on the (possibly mutated)
+    implementation, the hand-written model and the (re)generated code.  `impl_ne_hand`: the check of the case reports anything
+    without the third column (the oracle - isomorphism / inversion - or the Lean model)."""
+    rnd = random.Random(seed)
+    stats = {'cases': 0, 'impl_ne_hand': 0, 'gen_follows_impl': 0, 'gen_ne_impl': 0, 'impl_crash': 0, 'examples': []}
+    def note(kind, info):
+        if len([e for e in stats['examples'] if e[0] == kind]) < 2: stats['examples'].append([kind, info])
+    mcases, gcases = [], []
+    for i in range(n):
+        r = random.Random(rnd.getrandbits(48))
+        spec = LangGen(r, knobs={'dup_assoc_names': 0.4, 'reuse_fields': 0.6}).gen()
+        mcases.append((spec, Gen(r, spec, WEIGHTS, explicit_attacker_ids=False, extras=False).gen(r.randint(4, 30))[:-1]))
+        gcases.append(aghist.Gen(r, GW, nmax=r.choice([4, 7]), rich=True).gen(r.randint(5, 25))[:-1])
+    mp = [{'op': 'neo4j_model', 'case': i, 'lang': lang_payload(s), 'ops': o} for i, (s, o) in enumerate(mcases)]
+    gp = [{'op': 'neo4j_graph', 'case': i, 'ops': o} for i, o in enumerate(gcases)]
+    out = run_driver(mp + gp + [dict(p, op='gen_neo4j_model') for p in mp] + [dict(p, op='gen_neo4j_graph') for p in gp])
+    mm, gm, gmm, ggm = out[:n], out[n:2 * n], out[2 * n:3 * n], out[3 * n:]
+    def one(what, check, args, mo, go, gcheck, replay):
+        stats['cases'] += 1
+        if 'error' in mo or 'error' in go: note('driver-error', [what, mo.get('error'), go.get('error')]); return
+        rec = {}
+        try: v = check(*args, mo['model'], None, None, rec)
+        except Exception as e:
+            stats['impl_crash'] += 1; note('impl-crash', f'{what}: {type(e).__name__}: {str(e)[:100]}'); return
+        names = ('ValueError', 'LookupError', 'DuplicateModelAssociationError', 'ModelAssociationException', 'KeyError', 'AttributeError',
+                 'AssertionError', 'RecursionError')
+        cls = rec.get('raised') if rec.get('raised') in names else 'OtherError'
+        if 'full' not in rec:                              # the implementation raised before anything was recorded
+            g = go['model']
+            gv = None if g.get('error') == cls else f'disagree: the implementation raises {rec.get("raised")}, the generated code ' + (g.get('error') or 'stores a subgraph')
+        else:
+            if 'back' not in rec and what == 'model': rec['back'] = {'error': cls}
+            gv = gcheck(rec, go, None, replay)
+            gv = gv.what[:300] if gv else None
+            gv = gv and gv[gv.find('disagree'):]
+        if gv is not None: stats['gen_ne_impl'] += 1; note('gen!=impl', {'kind': what, 'gen_vs_impl': gv[:200], 'impl_vs_hand': v.fingerprint if v else None})
+        if v is not None:
+            stats['impl_ne_hand'] += 1
+            if gv is None: stats['gen_follows_impl'] += 1; note('gen=impl!=hand', {'kind': what, 'impl_vs_hand': v.fingerprint})
+    for i, (spec, ops) in enumerate(mcases): one('model', check_model, (spec, ops), mm[i], gmm[i], gen_model_check, {})
+    for i, ops in enumerate(gcases): one('graph', check_graph, (ops,), gm[i], ggm[i], gen_graph_check, {})
+    return stats
 
 def replay(path):
     r = json.load(open(path))
